@@ -106,6 +106,15 @@ def reg_group(name, sc, seed, variant):
         try:
             qs = entry.make(seed, ml, (0, 1))
             kw = zoo.model_kwargs(entry, ml, zoo.REG, seed=seed, variant=variant)
+            big = bool(sc.get("bigreg"))
+            if big and name.startswith("RegressionTreeBasedAL"):
+                # a regularised tree (several labeled samples per leaf), as the strategy's paper uses it
+                from sklearn.tree import DecisionTreeRegressor
+
+                from skactiveml.regressor import SklearnRegressor
+
+                kw["reg"] = SklearnRegressor(DecisionTreeRegressor(min_samples_leaf=2, random_state=seed),
+                                             random_state=seed, missing_label=ml)
             y = np.where(np.isnan(y0), ml, y0)
             np.random.seed(5)
             with warnings.catch_warnings():
@@ -113,9 +122,12 @@ def reg_group(name, sc, seed, variant):
                 with np.errstate(all="ignore"):
                     with pc.time_limit(120):
                         q, u = qs.query(X.copy(), y, candidates=None if cand is None else np.array(cand),
-                                        batch_size=1, return_utilities=True, **kw)
+                                        batch_size=3 if big else 1, return_utilities=True, **kw)
             u = np.asarray(u, dtype=float)
-            obs.append((ename, u[0], int(np.asarray(q).ravel()[0])))
+            # (larger pools: the whole batch - every utility row and every selected sample - is compared)
+            row = u.ravel() if big else u[0]
+            extra = [1000.0 * (int(v) + 1) for v in np.asarray(q).ravel()] if big else []
+            obs.append((ename, np.concatenate([row, np.array(extra, dtype=float)]), int(np.asarray(q).ravel()[0])))
         except Exception as ex:
             raised.append((ename, "%s: %s" % (type(ex).__name__, str(ex)[:160])))
     if raised and obs:
@@ -124,9 +136,11 @@ def reg_group(name, sc, seed, variant):
         kinds = {r[1].split(":")[0] for r in raised}
         events = [] if len(kinds) == 1 else [{"ev": "Raised", "exc": " / ".join(sorted(kinds)), "encoding": "-"}]
     else:
-        finite = [abs(v) for o in obs for v in o[1] if np.isfinite(v)]
+        finite = [abs(v) for o in obs for v in o[1] if np.isfinite(v) and abs(v) < 999.0]
         scale = max(max(finite), 1e-6) if finite else 1.0
-        events = [{"ev": "Obs", "name": n_, "vals": [[j + 1, _enc(v, scale)] for j, v in enumerate(row)],
+        events = [{"ev": "Obs", "name": n_,
+                   "vals": [[j + 1, _enc(v, scale) if abs(v) < 999.0 or not np.isfinite(v) else int(v)]
+                            for j, v in enumerate(row)],
                    "sel": sel + 1, "samekeys": True, "cmpsel": True} for n_, row, sel in obs]
     return {"id": "reg:%s/%s/seed%d/v%d" % (name, pc.scenario_tag(sc), seed, variant), "band": BAND,
             "events": events,
@@ -491,7 +505,8 @@ def main(tier="quick", seed=0):
             jobs.append(("reg", e.name, pool[int(i)], int(rng.integers(0, 1000)), n_ % 2))
     # larger regression pools (12-18 samples, at least four labels, batches of 3): a regression tree then has several
     # leaves that hold labeled AND unlabeled samples, where a sentinel that is a number can leak into a statistic
-    bigreg = [dict(x, mode="none", S=[], bs=3) for x in pc.random_scenarios(rng, 400, 12, 18) if len(x["labeled"]) >= 4]
+    bigreg = [dict(x, mode="none", S=[], bs=3, bigreg=True) for x in pc.random_scenarios(rng, 400, 12, 18)
+              if len(x["labeled"]) >= 4]
     for e in REG_ENTRIES.values():
         for n_ in range(6 if quick else 40):
             jobs.append(("reg", e.name, bigreg[int(rng.integers(len(bigreg)))], int(rng.integers(0, 1000)), n_ % 2))
